@@ -271,3 +271,309 @@ Theorem C06_pickle d : SetInv d ->
 Proof.
   intros I. exists d. split; [apply setstate_getstate; [apply I|apply SetInv_nodup, I]|]. split; [reflexivity|split; [exact I|tauto]].
 Qed.
+
+(* ================================================================ histories *)
+(* A typed version of the register machine of Extract/Cmd_Sets.v (same register file `regs`, `get`, `put`; a raising
+   operation leaves the registers as they were), and its abstract semantics on sets of addresses. *)
+From Coq Require Import String.
+From NV Require Import Extract.CmdBase Extract.Cmd_Sets.
+
+Inductive targ := TNone | TNet (n : net) | TRange (ver s e : Z) | TSet (r : Z) | TIter (l : list elem).
+Definition resolve (rs : regs) (t : targ) : Sets.sarg :=
+  match t with
+  | TNone => ANone | TNet n => ANet n | TRange ver s e => ARange ver s e | TSet r => ASet (get rs r) | TIter l => AIter l
+  end.
+
+Inductive op :=
+| OInit (r : Z) (a : targ) | OAdd (r : Z) (e : elem) | ORemove (r : Z) (e : elem) | OUpdate (r : Z) (a : targ)
+| OClear (r : Z) | OCompact (r : Z) | OCopy (dst src : Z) | OPickle (r : Z) | OPop (r : Z)
+| OUnion (dst a b : Z) | OInter (dst a b : Z) | ODiff (dst a b : Z) | OXor (dst a b : Z).
+
+Definition mutr (rs : regs) (r : Z) (o : outcome dict) : regs :=
+  match o with Ok d => put rs r d | Raise _ => rs end.
+
+Definition ostep (rs : regs) (o : op) : regs :=
+  match o with
+  | OInit r a => mutr rs r (set_init (resolve rs a))
+  | OAdd r e => mutr rs r (set_add (get rs r) e)
+  | ORemove r e => mutr rs r (set_remove (get rs r) e)
+  | OUpdate r a => mutr rs r (set_update (get rs r) (resolve rs a))
+  | OClear r => mutr rs r (Ok [])
+  | OCompact r => mutr rs r (set_compact (get rs r))
+  | OCopy dst src => mutr rs dst (Ok (dupdate [] (get rs src)))
+  | OPickle r => mutr rs r (set_setstate (set_getstate (get rs r)))
+  | OPop r => match set_pop (get rs r) with Ok (d, _) => put rs r d | Raise _ => rs end
+  | OUnion dst a b => mutr rs dst (set_union (get rs a) (get rs b))
+  | OInter dst a b => mutr rs dst (set_intersection (get rs a) (get rs b))
+  | ODiff dst a b => mutr rs dst (set_difference (get rs a) (get rs b))
+  | OXor dst a b => mutr rs dst (set_symdiff (get rs a) (get rs b))
+  end.
+
+(* ---- the typed machine is the extracted one: encoding of ops as wire values ---- *)
+Open Scope string_scope.
+Definition enc_elem (e : elem) : pyval :=
+  match e with
+  | EInt i => PList [PStr "i"; PInt i]
+  | EAddr ver v => PList [PStr "a"; PInt ver; PInt v]
+  | ENet n => PList [PStr "n"; PInt (nver n); PInt (nval n); PInt (nplen n)]
+  | ERange ver s e' => PList [PStr "r"; PInt ver; PInt s; PInt e']
+  end.
+Definition enc_targ (t : targ) : pyval :=
+  match t with
+  | TNone => PList [PStr "none"]
+  | TNet n => PList [PStr "n"; PInt (nver n); PInt (nval n); PInt (nplen n)]
+  | TRange ver s e => PList [PStr "r"; PInt ver; PInt s; PInt e]
+  | TSet r => PList [PStr "set"; PInt r]
+  | TIter l => PList [PStr "iter"; PList (map enc_elem l)]
+  end.
+Definition enc_op (o : op) : pyval :=
+  match o with
+  | OInit r a => PList [PStr "init"; PInt r; enc_targ a]
+  | OAdd r e => PList [PStr "add"; PInt r; enc_elem e]
+  | ORemove r e => PList [PStr "remove"; PInt r; enc_elem e]
+  | OUpdate r a => PList [PStr "update"; PInt r; enc_targ a]
+  | OClear r => PList [PStr "clear"; PInt r]
+  | OCompact r => PList [PStr "compact"; PInt r]
+  | OCopy dst src => PList [PStr "copy"; PInt dst; PInt src]
+  | OPickle r => PList [PStr "pickle"; PInt r]
+  | OPop r => PList [PStr "pop"; PInt r]
+  | OUnion dst a b => PList [PStr "union"; PInt dst; PInt a; PInt b]
+  | OInter dst a b => PList [PStr "inter"; PInt dst; PInt a; PInt b]
+  | ODiff dst a b => PList [PStr "diff"; PInt dst; PInt a; PInt b]
+  | OXor dst a b => PList [PStr "xor"; PInt dst; PInt a; PInt b]
+  end.
+Close Scope string_scope.
+
+Lemma to_elem_enc e : to_elem (enc_elem e) = Some e.
+Proof. destruct e as [i|ver v|[ver v p]|ver s e']; reflexivity. Qed.
+
+Lemma to_elems_enc l : to_elems (map enc_elem l) = Some l.
+Proof. induction l as [|e l IH]; [reflexivity|]. cbn [map to_elems]. rewrite to_elem_enc, IH. reflexivity. Qed.
+
+Lemma to_sarg_enc rs t : to_sarg rs (enc_targ t) = Some (resolve rs t).
+Proof.
+  destruct t as [|[ver v p]|ver s e|r|l]; try reflexivity.
+  unfold enc_targ, to_sarg. rewrite to_elems_enc. reflexivity.
+Qed.
+
+Lemma fst_mut rs r o : fst (mut rs r o) = mutr rs r o.
+Proof. destruct o; reflexivity. Qed.
+
+(* running the extracted command on the encoded op changes the registers exactly as ostep does *)
+Lemma step_enc rs o : fst (step rs (enc_op o)) = ostep rs o.
+Proof.
+  destruct o; unfold enc_op, step; rewrite ?to_sarg_enc, ?to_elem_enc, ?fst_mut; try reflexivity.
+  cbn [ostep]. destruct (set_pop (get rs r)) as [[d k]|e]; reflexivity.
+Qed.
+
+(* ---- abstract semantics: one set of (version, address) pairs per register ---- *)
+Definition aset := Z -> Z -> Prop.
+Definition aempty : aset := fun _ _ => False.
+Definition aregs := list aset.
+Definition aget (s : aregs) (i : Z) : aset := nth (Z.to_nat i) s aempty.
+Fixpoint aset_nth (s : aregs) (i : nat) (A : aset) : aregs :=
+  match s, i with
+  | [], _ => []
+  | _ :: r, O => A :: r
+  | x :: r, S k => x :: aset_nth r k A
+  end.
+Definition aput (s : aregs) (i : Z) (A : aset) : aregs := aset_nth s (Z.to_nat i) A.
+
+Definition den_targ (s : aregs) (t : targ) : aset :=
+  match t with
+  | TNone => aempty
+  | TNet n => in_net n
+  | TRange v a b => fun ver x => ver = v /\ a <= x <= b
+  | TSet r => aget s r
+  | TIter l => fun ver x => exists e, In e l /\ in_elem e ver x
+  end.
+
+Definition wf_targ (t : targ) : Prop :=
+  match t with
+  | TNone => True
+  | TNet n => wf_net n
+  | TRange ver s e => valid_ver ver = true /\ 0 <= s <= e /\ e < 2 ^ width ver
+  | TSet _ => True
+  | TIter l => Forall wf_elem l
+  end.
+
+Definition wf_op (o : op) : Prop :=
+  match o with
+  | OInit _ a | OUpdate _ a => wf_targ a
+  | OAdd _ e | ORemove _ e => wf_elem e
+  | _ => True
+  end.
+
+(* one abstract step.  update(None) raises TypeError and pop() on the empty set raises KeyError: no change.
+   pop() removes one block of the canonical decomposition of the register's set (which one depends on the insertion
+   order of the stored dict, which the abstract state does not see). *)
+Definition astep (s : aregs) (o : op) (s' : aregs) : Prop :=
+  match o with
+  | OInit r a => s' = aput s r (den_targ s a)
+  | OAdd r e => s' = aput s r (fun ver x => aget s r ver x \/ in_elem e ver x)
+  | ORemove r e => s' = aput s r (fun ver x => aget s r ver x /\ ~ in_elem e ver x)
+  | OUpdate r TNone => s' = s
+  | OUpdate r a => s' = aput s r (fun ver x => aget s r ver x \/ den_targ s a ver x)
+  | OClear r => s' = aput s r aempty
+  | OCompact r => s' = aput s r (aget s r)
+  | OCopy dst src => s' = aput s dst (aget s src)
+  | OPickle r => s' = aput s r (aget s r)
+  | OPop r =>
+      ((forall ver x, ~ aget s r ver x) /\ s' = s) \/
+      (exists l k, canon_nets l /\ (forall ver x, den l ver x <-> aget s r ver x) /\ In k l /\
+                   s' = aput s r (fun ver x => aget s r ver x /\ ~ in_net k ver x))
+  | OUnion dst a b => s' = aput s dst (fun ver x => aget s a ver x \/ aget s b ver x)
+  | OInter dst a b => s' = aput s dst (fun ver x => aget s a ver x /\ aget s b ver x)
+  | ODiff dst a b => s' = aput s dst (fun ver x => aget s a ver x /\ ~ aget s b ver x)
+  | OXor dst a b => s' = aput s dst (fun ver x => (aget s a ver x /\ ~ aget s b ver x) \/ (aget s b ver x /\ ~ aget s a ver x))
+  end.
+
+Fixpoint aruns (s : aregs) (ops : list op) (s' : aregs) : Prop :=
+  match ops with
+  | [] => s' = s
+  | o :: r => exists s1, astep s o s1 /\ aruns s1 r s'
+  end.
+
+(* every register holds a valid stored state denoting its abstract set *)
+Definition reg_ok (d : dict) (A : aset) : Prop := SetInv d /\ forall ver x, den d ver x <-> A ver x.
+Definition Rel (rs : regs) (s : aregs) : Prop := Forall2 reg_ok rs s.
+
+Lemma rel_nth rs s : Rel rs s -> forall i, reg_ok (nth i rs []) (nth i s aempty).
+Proof.
+  intros R. induction R as [|d A rs s H R IH]; intros i.
+  - destruct i; cbn [nth]; (split; [apply SetInv_nil|intros ver x; pose proof (den_nil ver x); unfold aempty; tauto]).
+  - destruct i as [|i]; [exact H|apply IH].
+Qed.
+
+Lemma rel_get rs s i : Rel rs s -> reg_ok (get rs i) (aget s i).
+Proof. intros R. apply rel_nth, R. Qed.
+
+Lemma rel_set_nth rs s d A : Rel rs s -> reg_ok d A -> forall i, Rel (set_nth rs i d) (aset_nth s i A).
+Proof.
+  intros R H. induction R as [|d0 A0 rs s H0 R IH]; intros i; [destruct i; constructor|].
+  destruct i as [|i]; cbn [set_nth aset_nth]; constructor; auto. apply IH.
+Qed.
+
+Lemma rel_put rs s i d A : Rel rs s -> SetInv d -> (forall ver x, den d ver x <-> A ver x) -> Rel (put rs i d) (aput s i A).
+Proof. intros R I D. apply rel_set_nth; [exact R|split; assumption]. Qed.
+
+Lemma rel_targ rs s t : Rel rs s -> wf_targ t ->
+  wf_sarg (resolve rs t) /\ forall ver x, in_sarg (resolve rs t) ver x <-> den_targ s t ver x.
+Proof.
+  intros R W. destruct t as [|n|ver a b|r|l]; cbn [resolve wf_sarg in_sarg den_targ wf_targ] in *;
+    try (split; [exact W|intros; unfold aempty; tauto]).
+  destruct (rel_get rs s r R) as (I & D). split; [exact I|exact D].
+Qed.
+
+Section History.
+Hypothesis HR : iprange_to_cidrs_spec.
+Hypothesis HM : cidr_merge_spec.
+Hypothesis HA : add_spec.
+Hypothesis HRm : remove_spec.
+Hypothesis HP : pop_spec.
+Hypothesis HI : inter_spec.
+Hypothesis HD : diff_spec.
+Hypothesis HX : xor_spec.
+
+(* one step: every mutator / constructor / operator result, every argument form *)
+Theorem C06_step rs s o : Rel rs s -> wf_op o -> exists s', astep s o s' /\ Rel (ostep rs o) s'.
+Proof.
+  intros R W. destruct o as [r a|r e|r e|r a|r|r|dst src|r|r|dst a b|dst a b|dst a b|dst a b]; cbn [wf_op astep ostep] in *.
+  - (* init *)
+    destruct (rel_targ rs s a R W) as (Wa & Da). destruct (C06_init HR HM _ Wa) as (d & E & I & D).
+    eexists. split; [reflexivity|]. rewrite E. cbn [mutr]. apply rel_put; auto. intros ver x. rewrite D. apply Da.
+  - (* add *)
+    destruct (rel_get rs s r R) as (I0 & D0). destruct (HA _ e I0 W) as (d & E & I & D).
+    eexists. split; [reflexivity|]. rewrite E. cbn [mutr]. apply rel_put; auto. intros ver x. rewrite D, D0. tauto.
+  - (* remove *)
+    destruct (rel_get rs s r R) as (I0 & D0). destruct (HRm _ e I0 W) as (d & E & I & D).
+    eexists. split; [reflexivity|]. rewrite E. cbn [mutr]. apply rel_put; auto. intros ver x. rewrite D, D0. tauto.
+  - (* update *)
+    destruct (rel_get rs s r R) as (I0 & D0). destruct (rel_targ rs s a R W) as (Wa & Da).
+    assert (G: a <> TNone -> exists s', s' = aput s r (fun ver x => aget s r ver x \/ den_targ s a ver x) /\
+                                     Rel (mutr rs r (set_update (get rs r) (resolve rs a))) s').
+    { intros Hn. destruct (C06_update HM HA (get rs r) (resolve rs a) I0 Wa) as (d & E & I & D).
+      { destruct a; cbn [resolve]; try discriminate. congruence. }
+      eexists. split; [reflexivity|]. rewrite E. cbn [mutr]. apply rel_put; auto. intros ver x. rewrite D, D0, Da. tauto. }
+    destruct a as [|n|ver a b|r'|l]; try (apply G; discriminate).
+    exists s. split; [reflexivity|]. cbn [resolve]. rewrite update_none. exact R.
+  - (* clear *)
+    eexists. split; [reflexivity|]. cbn [mutr]. apply rel_put; auto; [apply SetInv_nil|].
+    intros ver x. pose proof (den_nil ver x). unfold aempty. tauto.
+  - (* compact *)
+    destruct (rel_get rs s r R) as (I0 & D0). destruct (C06_compact HM _ (SetInv_wf _ I0)) as (d & E & I & _ & D).
+    eexists. split; [reflexivity|]. rewrite E. cbn [mutr]. apply rel_put; auto. intros ver x. rewrite D. apply D0.
+  - (* copy *)
+    destruct (rel_get rs s src R) as (I0 & D0). destruct (C06_copy _ I0) as (E & _).
+    eexists. split; [reflexivity|]. rewrite E. cbn [mutr]. apply rel_put; auto.
+  - (* pickle *)
+    destruct (rel_get rs s r R) as (I0 & D0). destruct (C06_pickle _ I0) as (d & E & -> & _).
+    eexists. split; [reflexivity|]. rewrite E. cbn [mutr]. apply rel_put; auto.
+  - (* pop *)
+    destruct (rel_get rs s r R) as (I0 & D0). pose proof (HP _ I0) as P.
+    destruct (set_pop (get rs r)) as [[d k]|e].
+    + destruct P as (Hk & I & D). eexists. split.
+      * right. exists (sorted (get rs r)), k. destruct (C06_shown _ I0) as (C & Ds).
+        split; [exact C|split; [intros ver x; rewrite Ds; apply D0|split; [apply sorted_in, Hk|reflexivity]]].
+      * apply rel_put; auto. intros ver x. rewrite D, D0. tauto.
+    + destruct P as (_ & E0). exists s. split; [|exact R]. left. split; [|reflexivity].
+      intros ver x H. apply D0 in H. rewrite E0 in H. exact (den_nil _ _ H).
+  - (* union *)
+    destruct (rel_get rs s a R) as (Ia & Da). destruct (rel_get rs s b R) as (Ib & Db).
+    destruct (C06_union HM _ _ Ia Ib) as (d & E & I & D).
+    eexists. split; [reflexivity|]. rewrite E. cbn [mutr]. apply rel_put; auto. intros ver x. rewrite D, Da, Db. tauto.
+  - (* & *)
+    destruct (rel_get rs s a R) as (Ia & Da). destruct (rel_get rs s b R) as (Ib & Db).
+    destruct (HI _ _ Ia Ib) as (d & E & I & D).
+    eexists. split; [reflexivity|]. rewrite E. cbn [mutr]. apply rel_put; auto. intros ver x. rewrite D, Da, Db. tauto.
+  - (* - *)
+    destruct (rel_get rs s a R) as (Ia & Da). destruct (rel_get rs s b R) as (Ib & Db).
+    destruct (HD _ _ Ia Ib) as (d & E & I & D).
+    eexists. split; [reflexivity|]. rewrite E. cbn [mutr]. apply rel_put; auto. intros ver x. rewrite D, Da, Db. tauto.
+  - (* ^ *)
+    destruct (rel_get rs s a R) as (Ia & Da). destruct (rel_get rs s b R) as (Ib & Db).
+    destruct (HX _ _ Ia Ib) as (d & E & I & D).
+    eexists. split; [reflexivity|]. rewrite E. cbn [mutr]. apply rel_put; auto. intros ver x. rewrite D, Da, Db. tauto.
+Qed.
+
+(* any finite history: the registers stay valid and denote what the abstract run says *)
+Theorem C06_reachable ops : forall rs s, Rel rs s -> Forall wf_op ops ->
+  exists s', aruns s ops s' /\ Rel (fold_left ostep ops rs) s'.
+Proof.
+  induction ops as [|o ops IH]; intros rs s R W; cbn [fold_left aruns].
+  - exists s. split; [reflexivity|exact R].
+  - inversion W as [|? ? Wo Wops]; subst. destruct (C06_step rs s o R Wo) as (s1 & A1 & R1).
+    destruct (IH _ _ R1 Wops) as (s' & A' & R'). exists s'. split; [exists s1; split; assumption|exact R'].
+Qed.
+
+(* the machine of Extract/Cmd_Sets.v starts with four empty registers *)
+Definition regs0 : regs := [[]; []; []; []].
+Definition aregs0 : aregs := [aempty; aempty; aempty; aempty].
+
+Lemma rel0 : Rel regs0 aregs0.
+Proof.
+  assert (H: reg_ok [] aempty).
+  { split; [apply SetInv_nil|]. intros ver x. pose proof (den_nil ver x). unfold aempty. tauto. }
+  unfold Rel, regs0, aregs0. repeat (apply Forall2_cons; [exact H|]). apply Forall2_nil.
+Qed.
+
+(* every register of every reachable state satisfies the invariant, shows the canonical list of the set the abstract
+   run assigns to it, and two registers compare equal iff their abstract sets coincide *)
+Theorem C06_reachable_shown ops : Forall wf_op ops ->
+  exists s', aruns aregs0 ops s' /\
+    let rs := fold_left ostep ops regs0 in
+    (forall r, SetInv (get rs r) /\ canon_nets (sorted (get rs r)) /\
+               forall ver x, den (sorted (get rs r)) ver x <-> aget s' r ver x) /\
+    (forall r1 r2, dict_eqb (get rs r1) (get rs r2) = true <-> forall ver x, aget s' r1 ver x <-> aget s' r2 ver x).
+Proof.
+  intros W. destruct (C06_reachable ops regs0 aregs0 rel0 W) as (s' & A & R). exists s'. split; [exact A|].
+  cbn zeta. split.
+  - intros r. destruct (rel_get _ _ r R) as (I & D). destruct (C06_shown _ I) as (C & Ds).
+    split; [exact I|split; [exact C|]]. intros ver x. rewrite Ds. apply D.
+  - intros r1 r2. destruct (rel_get _ _ r1 R) as (I1 & D1). destruct (rel_get _ _ r2 R) as (I2 & D2).
+    rewrite (C06_extensional _ _ I1 I2). split; intros H ver x.
+    + rewrite <- D1, <- D2. apply H.
+    + rewrite D1, D2. apply H.
+Qed.
+
+End History.
